@@ -117,6 +117,7 @@ pub fn run(tier: Tier, seed: u64) -> i32 {
                 note: format!("value={vname}"),
             };
             ev.bucket(if relation { "honest.in-range" } else { "honest.out-of-range" });
+            let case = if (vi + w) % 3 == 1 { super::gadget::in_context(case, &mut rng, false, &ev) } else { case };
             let Some(h) = lab.honest(&case) else { continue };
             for (name, forge) in range_adversaries(&h, w, &v, &mut rng) {
                 lab.adversary(&case, &h, &name, &forge);
@@ -143,6 +144,7 @@ pub fn run(tier: Tier, seed: u64) -> i32 {
     ev.floor("end-to-end confirmations", ev.bucket_get("end_to_end"), tier.pick(60, 500));
     ev.floor("near-miss assignments (one sub-identity on one row) refused by the real prover", ev.bucket_get("near_miss.end_to_end"), 100);
     ev.floor("sub-identities covered by near misses", ev.set_len("near_miss_identities") as u64, 4);
+    ev.floor("cases run in a context of earlier calls on the operands", ev.bucket_get("context.cases"), 200);
     ev.finish()
 }
 
